@@ -688,6 +688,13 @@ impl Watch {
                     }
                 }
             }
+            // a client has no receive timeout: nothing it receives arms PingreqRecv
+            if self.m.is_client && self.m.st != St::Disc {
+                if let Some(ms) = last_reset(Tk::PingreqRecv) {
+                    self.flag(&["C15", "C10"], "client-armed-receive-timer", format!("{what}: a client armed PingreqRecv with {ms} ms"));
+                    return;
+                }
+            }
             if k == PINGRESP && self.m.armed[Tk::PingrespRecv.ix()] && !evs.iter().any(|e| matches!(e, Ev::TimerCancel(Tk::PingrespRecv))) {
                 self.flag(&["C15"], "pingresp-not-cancelled", format!("{what}: PINGRESP accepted but the armed PingrespRecv timer was not cancelled"));
             }
@@ -1022,6 +1029,42 @@ impl Watch {
             self.sync(&what, false);
         } else {
             self.lenient_resync();
+        }
+    }
+}
+
+impl Watch {
+    /// C13: `regulate_for_store` must yield the full topic and no alias, resolving an
+    /// alias-only packet through the bindings that were actually sent on this connection.
+    pub fn regulate(&mut self, p: &Pkt) {
+        if self.failed() || self.lenient {
+            return;
+        }
+        let what = format!("regulate_for_store({})", p.short());
+        let Some(r) = self.guarded(&what, &["C13"], |ep| ep.regulate(p)) else { return };
+        let r = match r {
+            Ok(r) => r,
+            Err(e) => {
+                self.flag(&[], "harness/build", format!("{what}: {e}"));
+                return;
+            }
+        };
+        self.note(format!("{what} -> {:?}", r.as_ref().map(|x| x.short()).map_err(|e| e.1.clone())));
+        self.stats.hit("c13_regulate_for_store");
+        let want: Option<String> = if !p.topic.is_empty() { Some(p.topic.clone()) } else { p.alias().and_then(|a| self.m.peer_alias.get(&a).cloned()) };
+        match (r, want) {
+            (Ok(q), Some(t)) => {
+                if q.topic != t || q.alias().is_some() || q.payload != p.payload || q.id != p.id || q.qos != p.qos {
+                    self.flag(&["C13"], "regulate-for-store-result", format!("{what}: got {}, expected the full topic {:?} and no Topic Alias", q.short(), t));
+                }
+            }
+            (Ok(q), None) => {
+                self.flag(&["C13"], "regulate-for-store-resolves-unbound-alias", format!("{what}: got {} although no PUBLISH sent on this connection bound that alias", q.short()));
+            }
+            (Err(_), Some(t)) => {
+                self.flag(&["C13"], "regulate-for-store-refuses-bound-alias", format!("{what}: refused although the alias is bound to {:?}", t));
+            }
+            (Err(_), None) => {}
         }
     }
 }
